@@ -13,7 +13,7 @@ static int task_fn(void *up) { (void)up; return 42; }
 static int src_call(m_mod_t *h, int kind, int key, int reg, int flags, const void *up) {
     m_src_flags fl = ((flags & 1) ? M_SRC_FD_AUTOCLOSE : 0) | ((flags & 2) ? M_SRC_ONESHOT : 0) | ((flags & 4) ? M_SRC_DUP : 0) | ((flags & 8) ? M_SRC_AUTOFREE : 0);
     switch (kind) {
-    case K_FD: return reg ? m_mod_src_register_fd(h, key == 15 ? -1 : UFD[key].rd, fl, up) : m_mod_src_deregister_fd(h, UFD[key].rd);
+    case K_FD: return reg ? m_mod_src_register_fd(h, key == 15 ? -1 : key == 14 ? BADFD : UFD[key].rd, fl, up) : m_mod_src_deregister_fd(h, UFD[key].rd);
     case K_TMR: { m_src_tmr_t t = { CLOCK_MONOTONIC, key == 15 ? 0 : TPER[key] }; return reg ? m_mod_src_register_tmr(h, &t, fl, up) : m_mod_src_deregister_tmr(h, &t); }
     case K_SGN: { m_src_sgn_t g = { key == 15 ? 0 : SIGS[key] }; return reg ? m_mod_src_register_sgn(h, &g, fl, up) : m_mod_src_deregister_sgn(h, &g); }
     case K_PATH: { m_src_path_t pt = { key == 15 ? "" : PATHS[key], 0x100 | 0x200 /* IN_CREATE | IN_DELETE */ }; return reg ? m_mod_src_register_path(h, &pt, fl, up) : m_mod_src_deregister_path(h, &pt); }
@@ -205,7 +205,11 @@ static void do_api(op_t op) {
         int legal = (CX.exists && !CX.finalized && !MD[s].present && !ctx_hidden()) || replace;
         int save_eval = MD[s].evalmode;
         if (legal) { MD[s].evalmode = op.b >> 1; }
-        rc = m_mod_register(MD[s].name, &nh, &hk, MFLAGS[op.d], &MD[s]);
+        /* name / user data handed over with an auto-free flag: heap blocks from the ledger allocator; the library owns them once the registration succeeded */
+        char *hname = (MFLAGS[op.d] & M_MOD_NAME_AUTOFREE) ? lg_malloc(strlen(MD[s].name) + 1) : NULL; if (hname) strcpy(hname, MD[s].name);
+        void *hud = (MFLAGS[op.d] & M_MOD_USERDATA_AUTOFREE) ? lg_malloc(8) : NULL;
+        rc = m_mod_register(hname ? hname : MD[s].name, &nh, &hk, MFLAGS[op.d], hud ? hud : (void *)&MD[s]);
+        if (rc) { if (hname && lg_is_live(hname)) lg_free(hname); if (hud && lg_is_live(hud)) lg_free(hud); }      /* rejected: still the caller's */
         if (!legal) { MD[s].evalmode = save_eval;
             if (rc >= 0) vfail("ST.refuse", !CX.exists ? "CX.none|register" : CX.finalized ? "CX.finalized" : "NM.uniq", "m_mod_register returned %d although %s", rc, !CX.exists ? "the thread has no context" : CX.finalized ? "the context is finalized" : "the name is taken");
             if (MD[s].present && CX.exists && !CX.finalized && !ctx_hidden() && rc != -EEXIST) vfail("NM.uniq", "NM.uniq|code", "duplicate name refused with %d, expected -EEXIST", rc);
@@ -376,7 +380,7 @@ static void do_api(op_t op) {
         for (int i = 0; i < MAXSRC; i++) { if (MD[s].src[i].present && MD[s].src[i].kind == kind && MD[s].src[i].key == key) idx = i; if (!MD[s].src[i].present && freei < 0) freei = i; }
         if (op.c == O_SRC_REG) {
             if (freei < 0) { api_depth--; return; }
-            if (kind == K_FD && key != 15 && legal && idx < 0) shim_user_fd(UFD[key].rd, (flags & 5) == 1);
+            if (kind == K_FD && key < 14 && legal && idx < 0) shim_user_fd(UFD[key].rd, (flags & 5) == 1);
             /* user data flagged auto-free: a fresh block, or - registering a present auto-free key again - the very block the present source owns */
             int shared = (flags & 8) && idx >= 0 && (MD[s].src[idx].flags & 8);
             void *heapup = !(flags & 8) ? NULL : shared ? SRCUPH[s][idx] : lg_malloc(8), *prevup = SRCUPH[s][freei];
@@ -386,7 +390,7 @@ static void do_api(op_t op) {
                 SRCUPH[s][freei] = prevup;
                 if (heapup && !shared && lg_is_live(heapup)) lg_free(heapup);
             }
-            if (!legal || key == 15) { REFUSED(rc, what, key == 15 ? "SR.set|bad-param" : "ST.refuse|src"); if (ON(R_SR)) for (int i = 0; i < NM; i++) audit_srclen(i, what); break; }
+            if (!legal || key >= 14) { REFUSED(rc, what, key == 15 ? "SR.set|bad-param" : key == 14 ? "SR.set|unpollable" : "ST.refuse|src"); if (ON(R_SR)) for (int i = 0; i < NM; i++) audit_srclen(i, what); break; }
             if (tb_account(s, rc, &sn, what)) break;
             if (idx >= 0) { if (rc != -EEXIST) vfail("SR.set", "SR.set|dup", "%s: key already present, returned %d instead of -EEXIST", what, rc); check_unchanged(&sn, what, "SR.set|dup-effect"); if (api_depth == 1) last_refused = 1; break; }
             if (rc) vfail("SR.set", "SR.set|new", "%s: new key, returned %d", what, rc);
